@@ -11,13 +11,13 @@ open Spec.X86
 
 /-- shape [reg, MEM] with a 64-bit-addressed, non-VSIB memory operand without segment / broadcast: all conditions of the monitor hold -/
 theorem vex_rm_mem_formOk (ctx : Spec.X86.Ctx) (rule : Rule) (p : Parsed) (mb : BitVec 8) (bytes pfx : List (BitVec 8))
-    (k0 : RegKind) (f0 f2 : FormOp) (i0 : Nat) (m : MemOp) (k : Nat) (z : Bool)
+    (k0 : RegKind) (f0 f2 : FormOp) (i0 : Nat) (m : MemOp) (k : Nat) (z bb : Bool)
     (hm64 : ctx.mode64 = true) (hmode : (rule.modes &&& 2 != 0) = true) (hk0 : PlainKind k0)
     (R : VexRuleM rule 0) (hf0 : f0.role = .reg) (hf2 : f2.role = .rm)
-    (K : PfxCounts pfx m) (D : DecorAllowed rule k z false false) (hvs : vsibOf m = .none) (hbc : m.bcst = 0)
+    (K : PfxCounts pfx m) (D : DecorAllowed rule k z false false) (hvs : vsibOf m = .none) (hbc : (m.bcst != 0) = bb) (hbr : bb = true → rule.bcst = true)
     (hal : alignOps rule.oszEff rule.ops [.reg k0 i0, .mem m] =
            some [(f0, some (.reg k0 i0)), (f2, some (.mem m))])
-    (hparse : parse true rule bytes = .ok p) (P : VexParsedM rule p mb pfx k z)
+    (hparse : parse true rule bytes = .ok p) (P : VexParsedM rule p mb pfx k z bb)
     (hreg : regNum p.R' p.R (bits mb 3 3) = i0)
     (hvv : regNum p.V' false p.vvvv = 0)
     (hcm : checkMem ctx rule p m = .ok ()) :
@@ -55,8 +55,11 @@ theorem vex_rm_mem_formOk (ctx : Spec.X86.Ctx) (rule : Rule) (p : Parsed) (mb : 
        · obtain ⟨a, zz, b, mm⟩ := hev h4
          rw [hmap] at mm
          simp [h4, allOk, a, zz, b, mm]
-       · obtain ⟨k0', z0'⟩ := hnk h4
-         simp [h4, allOk, k0', z0'])
+       · obtain ⟨k0', z0', b0'⟩ := hnk h4
+         simp [h4, allOk, k0', z0', b0'])
+    | (cases bb
+       · exact Or.inl rfl
+       · exact Or.inr (hbr rfl))
     | (by_cases h : k = 0
        · exact Or.inl h
        · exact Or.inr (dk h))
@@ -68,14 +71,14 @@ theorem vex_rm_mem_formOk (ctx : Spec.X86.Ctx) (rule : Rule) (p : Parsed) (mb : 
 
 /-- shape [reg, vvvv, MEM, imm8] with a 64-bit-addressed, non-VSIB memory operand without segment / broadcast: all conditions of the monitor hold -/
 theorem vex_rvmi_mem_formOk (ctx : Spec.X86.Ctx) (rule : Rule) (p : Parsed) (mb : BitVec 8) (bytes pfx : List (BitVec 8))
-    (k0 k1 : RegKind) (f0 f1 f2 : FormOp) (i0 i1 : Nat) (m : MemOp) (k : Nat) (z : Bool)
+    (k0 k1 : RegKind) (f0 f1 f2 : FormOp) (i0 i1 : Nat) (m : MemOp) (k : Nat) (z bb : Bool)
     (hm64 : ctx.mode64 = true) (hmode : (rule.modes &&& 2 != 0) = true) (hk0 : PlainKind k0) (hk1 : PlainKind k1)
     (R : VexRuleM rule 1) (f3 : FormOp) (v : BitVec 64) (hf3 : f3.role = .imm) (hib : immBitsOf f3 = 8)
     (himmp : p.imm = [BitVec.ofNat 8 v.toNat]) (hf0 : f0.role = .reg) (hf1 : f1.role = .vvvv) (hf2 : f2.role = .rm)
-    (K : PfxCounts pfx m) (D : DecorAllowed rule k z false false) (hvs : vsibOf m = .none) (hbc : m.bcst = 0)
+    (K : PfxCounts pfx m) (D : DecorAllowed rule k z false false) (hvs : vsibOf m = .none) (hbc : (m.bcst != 0) = bb) (hbr : bb = true → rule.bcst = true)
     (hal : alignOps rule.oszEff rule.ops [.reg k0 i0, .reg k1 i1, .mem m, .imm v] =
            some [(f0, some (.reg k0 i0)), (f1, some (.reg k1 i1)), (f2, some (.mem m)), (f3, some (.imm v))])
-    (hparse : parse true rule bytes = .ok p) (P : VexParsedM rule p mb pfx k z)
+    (hparse : parse true rule bytes = .ok p) (P : VexParsedM rule p mb pfx k z bb)
     (hreg : regNum p.R' p.R (bits mb 3 3) = i0)
     (hvv : regNum p.V' false p.vvvv = i1)
     (hcm : checkMem ctx rule p m = .ok ()) :
@@ -112,8 +115,11 @@ theorem vex_rvmi_mem_formOk (ctx : Spec.X86.Ctx) (rule : Rule) (p : Parsed) (mb 
        · obtain ⟨a, zz, b, mm⟩ := hev h4
          rw [hmap] at mm
          simp [h4, allOk, a, zz, b, mm]
-       · obtain ⟨k0', z0'⟩ := hnk h4
-         simp [h4, allOk, k0', z0'])
+       · obtain ⟨k0', z0', b0'⟩ := hnk h4
+         simp [h4, allOk, k0', z0', b0'])
+    | (cases bb
+       · exact Or.inl rfl
+       · exact Or.inr (hbr rfl))
     | (by_cases h : k = 0
        · exact Or.inl h
        · exact Or.inr (dk h))
@@ -127,14 +133,14 @@ theorem vex_rvmi_mem_formOk (ctx : Spec.X86.Ctx) (rule : Rule) (p : Parsed) (mb 
 
 /-- shape [reg, MEM, imm8] with a 64-bit-addressed, non-VSIB memory operand without segment / broadcast: all conditions of the monitor hold -/
 theorem vex_rmi_mem_formOk (ctx : Spec.X86.Ctx) (rule : Rule) (p : Parsed) (mb : BitVec 8) (bytes pfx : List (BitVec 8))
-    (k0 : RegKind) (f0 f2 : FormOp) (i0 : Nat) (m : MemOp) (k : Nat) (z : Bool)
+    (k0 : RegKind) (f0 f2 : FormOp) (i0 : Nat) (m : MemOp) (k : Nat) (z bb : Bool)
     (hm64 : ctx.mode64 = true) (hmode : (rule.modes &&& 2 != 0) = true) (hk0 : PlainKind k0)
     (R : VexRuleM rule 1) (f3 : FormOp) (v : BitVec 64) (hf3 : f3.role = .imm) (hib : immBitsOf f3 = 8)
     (himmp : p.imm = [BitVec.ofNat 8 v.toNat]) (hf0 : f0.role = .reg) (hf2 : f2.role = .rm)
-    (K : PfxCounts pfx m) (D : DecorAllowed rule k z false false) (hvs : vsibOf m = .none) (hbc : m.bcst = 0)
+    (K : PfxCounts pfx m) (D : DecorAllowed rule k z false false) (hvs : vsibOf m = .none) (hbc : (m.bcst != 0) = bb) (hbr : bb = true → rule.bcst = true)
     (hal : alignOps rule.oszEff rule.ops [.reg k0 i0, .mem m, .imm v] =
            some [(f0, some (.reg k0 i0)), (f2, some (.mem m)), (f3, some (.imm v))])
-    (hparse : parse true rule bytes = .ok p) (P : VexParsedM rule p mb pfx k z)
+    (hparse : parse true rule bytes = .ok p) (P : VexParsedM rule p mb pfx k z bb)
     (hreg : regNum p.R' p.R (bits mb 3 3) = i0)
     (hvv : regNum p.V' false p.vvvv = 0)
     (hcm : checkMem ctx rule p m = .ok ()) :
@@ -172,8 +178,11 @@ theorem vex_rmi_mem_formOk (ctx : Spec.X86.Ctx) (rule : Rule) (p : Parsed) (mb :
        · obtain ⟨a, zz, b, mm⟩ := hev h4
          rw [hmap] at mm
          simp [h4, allOk, a, zz, b, mm]
-       · obtain ⟨k0', z0'⟩ := hnk h4
-         simp [h4, allOk, k0', z0'])
+       · obtain ⟨k0', z0', b0'⟩ := hnk h4
+         simp [h4, allOk, k0', z0', b0'])
+    | (cases bb
+       · exact Or.inl rfl
+       · exact Or.inr (hbr rfl))
     | (by_cases h : k = 0
        · exact Or.inl h
        · exact Or.inr (dk h))
